@@ -197,6 +197,19 @@ func c01ExtraSpecs(c *core.Check, rng *rand.Rand) ([]*aspec.ASpec, []string) {
 		a.Paths = items
 		add("config:component-response-on-root-and-trailing-slash", a)
 	}
+	// random compositions of the pipeline features (randkitchen.go), with and without client
+	{
+		rk := rand.New(rand.NewSource(c.Seed + 101))
+		nk := 12
+		if c.Tier == "thorough" {
+			nk = 120
+		}
+		for k := 0; k < nk; k++ {
+			a := randKitchen(rk, k+rk.Intn(1000)*13)
+			a.Flags.Client = k%2 == 0
+			add(fmt.Sprintf("config:random-kitchen-%d", k), a)
+		}
+	}
 	// random compositions: seeded operations of the wire universe one by one, and packed (client on)
 	nOps := 60
 	if c.Tier == "thorough" {
